@@ -50,7 +50,8 @@ theorem strict_live (cmds : List Cmd) (fs : List Nat) (h : Script.strictFormula 
 theorem track_refines_stack (cfg : Config) (hc : Covers cfg = true) : TrackRefines cfg :=
   trackRefines_of_covers hc
 
-/-- The placement condition is sufficient for the one-shot queries to be invisible to every later observation. -/
+/-- The placement condition is sufficient for the one-shot queries to be invisible to every later observation —
+    also for queries that end with an exception (unknown result of the check, failing assertion of the formula). -/
 theorem placement_sufficient (cfg : Config) (hc : Covers cfg = true) : OneshotRestores cfg :=
   oneshotRestores_of_covers hc
 
@@ -60,7 +61,8 @@ theorem placement_table : ∀ c ∈ classes, isConcrete classes c = true → use
     Covers (configOf classes c) = true ∧ extrasCovered classes c = true :=
   placement_table_holds
 
-/-- Hence, for every concrete solver class of the tree: one-shot queries leave the assertions as they found them. -/
+/-- Hence, for every concrete solver class of the tree: one-shot queries, whether they answer or raise, leave the
+    assertions as they found them. -/
 theorem oneshot_restores : ∀ c ∈ classes, isConcrete classes c = true → usesBaseIsSat classes c = true →
     OneshotRestores (configOf classes c) ∧ TrackRefines (configOf classes c) :=
   fun c hc h1 h2 =>
@@ -97,6 +99,16 @@ example : (SolverTrack.run allDecorated [.assert 2, .oneshot .isSat 4]).map (fun
     .ok ([2, 4], true) := rfl
 example : (SolverTrack.run allDecorated [.assert 2, .oneshot .isSat 4, .solve]).map (fun st => (st.tracked, st.checks)) =
     .ok ([2], [[2], [2, 4]]) := rfl
+-- a query that raises (unknown result / formula that cannot be asserted) also leaves a pending pop behind …
+example : (SolverTrack.run allDecorated [.assert 2, .oneshotFails .isSat .solve 4]).map
+    (fun st => (st.native, st.tracked, st.pending)) = .ok ([[4], [2]], [2, 4], true) := rfl
+example : (SolverTrack.run allDecorated [.assert 2, .oneshotFails .isValid .add 4]).map
+    (fun st => (st.native, st.tracked, st.pending)) = .ok ([[], [2]], [2], true) := rfl
+-- … which the next call removes
+example : (SolverTrack.run allDecorated [.assert 2, .oneshotFails .isSat .solve 4, .solveFails, .read]).map
+    (fun st => (st.native, st.tracked, st.checks)) = .ok ([[2]], [2], [[2], [2, 4]]) := rfl
+example : LegalOps [.assert 2, .oneshotFails .isSat .solve 4, .push 1, .oneshotFails .isUnsat .add 6, .pop 1] := by decide
+example : (Op.oneshotFails .isSat .solve 4).isOneshot = true := rfl
 -- the placement condition is needed: with no decorator the one-shot formula stays asserted (F27) …
 example : Covers noneDecorated = false := by decide
 example : (SolverTrack.run noneDecorated [.assert 2, .oneshot .isSat 4, .solve]).map (fun st => st.checks) =
